@@ -10,7 +10,10 @@ CHECK = {
         "type_Vector2f", "type_Vector2d", "type_Vector3f", "type_Vector3d",
         "type_Homogeneous2f", "type_Homogeneous2d", "type_Homogeneous3f", "type_Homogeneous3d",
         "set_uniform", "set_clustered", "set_collinear", "set_coplanar", "set_lattice", "set_identical",
-        "set_duplicates", "set_multiscale", "set_special_values", "set_large_offset", "set_tiny_scale",
+        "set_duplicates", "set_multiscale", "set_special_values", "set_jittered_lattice", "set_large_offset", "set_tiny_scale",
+        "realloc_copy_and_swap", "realloc_shrink_to_fit", "realloc_reserve_bigger", "realloc_swap_old_block_kept",
+        "realloc_swap_old_block_overwritten", "realloc_move_assign_from_copy",
+        "realloc_between_build_and_first_query", "realloc_between_two_queries",
         "n_1", "n_2_9_below_leaf", "n_10_11_leaf_boundary", "n_12_200", "n_201_2000", "n_2001_5000",
         "query_inside", "query_on_data_point", "query_near_data_point", "query_far_outside", "query_outside",
         "query_bbox_corner_face", "query_midpoint_tie", "query_extreme_far", "query_special_point",
@@ -25,12 +28,13 @@ CHECK = {
                           "queries_with_exact_ties_among_k_plus_1", "queries_at_zero_distance",
                           "queries_with_reused_buffers", "sets_with_exact_duplicates",
                           "queries_with_all_sqdist_above_2pow64", "sibling_queries", "sibling_destroyed_mid_case",
-                          "history_calls"],
+                          "history_calls", "reallocations_that_changed_the_buffer_address"],
     "rule": "case = one point set + 40 queries. Point type drawn from the 8 types (homogeneous w = 1); n from "
             "{1, 2..9 (< leaf size), 10..11, 12..200, 201..2000, 2001..5000 (5000 itself included)}; set from {uniform box, "
             "1..6 Gaussian clusters, collinear (axis-aligned exact / oblique), coplanar or axis-degenerate, integer lattice "
             "1..7 cells per axis (exact duplicates and ties), all identical, uniform with exact duplicates, nested multiscale "
-            "clusters, special values (+0, -0, +-1, +-2, 0.5, 3, 4, +-denorm_min, min normal; 30% with equal components)}, scale log-uniform 1e-3..1e3, centre 0 / +-10 / +-1e3 scales / dyadic / unit-spaced set translated by 1e5..1e9 per axis / tiny extents "
+            "clusters, special values (+0, -0, +-1, +-2, 0.5, 3, 4, +-denorm_min, min normal; 30% with equal components), lattice of 1..24 cells per axis or regularly sampled segment "
+            "with a jitter of 1e-12..1e-8 steps (near ties far above a double's rounding and far below a float's epsilon)}, scale log-uniform 1e-3..1e3, centre 0 / +-10 / +-1e3 scales / dyadic / unit-spaced set translated by 1e5..1e9 per axis / tiny extents "
             "log-uniform from 1e-15 (float) or 1e-150 (double) to 1e-6 (the smallest decades where squared neighbour distances are still "
             "normal numbers; below, the underflow floor DIM*min-normal makes the value oracles vacuous); query from {inside the box, "
             "exactly a data point, a data point moved by 0..3 ulps or 1e-6..1e-2 extents, 1e3..2e3 extents outside along an "
@@ -43,7 +47,11 @@ CHECK = {
             "const object, std::move'd query, the query being an element of the indexed set passed by reference, k read through a reference "
             "into the index output buffer, lvalues through a const object}; half of the cases keep a second index of the same type over "
             "1..40 points (random / same coordinates / translated) that is queried (and checked) between the queries and is sometimes "
-            "destroyed mid-case; the first query's output buffers are kept untouched and re-compared at the end and the first query is "
+            "destroyed mid-case; in 35% of the cases the caller's point set gets a new buffer with "
+            "the same points in the same order, between the build and the first query or between two queries (30% of those twice), by "
+            "{copy-and-swap (old block freed), shrink_to_fit after an earlier reserve, reserve(2*capacity+16), swap with an equal copy "
+            "whose vector is kept alive, the same with the old block then overwritten with other coordinates, move-assignment from a "
+            "copy}, the oracle scanning the current contents; the first query's output buffers are kept untouched and re-compared at the end and the first query is "
             "repeated at the end; 3% of the cases with n <= 200 first make 2^8+j, 0.5% 2^16+j calls of one of the two queries "
             "(j = -40..3, so that call number 2^8 / 2^16 on the object is one of the observed ones or just precedes them); "
             "non-trivial = n > 10 (a tree with at least one split; every case has queries that are not data points)",
@@ -63,8 +71,9 @@ CHECK = {
         "16 eps of the j-th smallest true one; ties may be returned in any order",
         "finite coordinates, no overflow of squared distances in the Scalar (|coordinates| <= ~1e18 float, ~1e150 double), "
         "1 <= k <= min(n, 50), n >= 1",
-        "the point set outlives the index and is not modified while the index exists (KdTree keeps a reference to it and has no "
-        "rvalue overload: a temporary point set would dangle; lifetime contract, outside the statement)",
+        "the point set OBJECT outlives the index and its points, count and order are not modified while the index exists (KdTree keeps a "
+        "reference to the vector and has no rvalue overload: a temporary point set would dangle; lifetime contract, outside the "
+        "statement); the vector's buffer may be re-allocated at any time (same points => same answers)",
         "the outputs do not overlap the query: findNearestNeighbor(Q, i, Q[0]) writes its 'not found yet' sentinel (max) through the "
         "distance reference before it reads the query and then finds nothing; writing an output over a const input is treated as "
         "a caller error (Eigen aliasing convention), not as a point of the statement's quantifier. Aliasing that leaves the "
